@@ -72,7 +72,7 @@ def apply_fault(w, project, fault):
             raw = f["patterns"][fault["pat"]]
             full = os.path.join(w.dir, f["path"])
             with open(full, "rb") as fobj:
-                data = fobj.read().decode("utf-8")
+                data = fobj.read().decode("utf-8", "surrogateescape")
             if "@k" in raw[:3]:
                 raw_m = raw[raw.index("@k"):]
                 marker = raw_m.split(" ")[0].split(":")[0].split("=")[0]
@@ -83,7 +83,7 @@ def apply_fault(w, project, fault):
             if data2 == data:
                 return None
             with open(full, "wb") as fobj:
-                fobj.write(data2.encode("utf-8"))
+                fobj.write(data2.encode("utf-8", "surrogateescape"))
         return []
     return []
 
@@ -101,7 +101,7 @@ class FaultPos:
 
     def gen(self, seed, index, tier):
         rng = runner.rng_for(seed, self.name, index)
-        project = layouts.gen_project(rng, mode="plain", allow_mixed=True, vcs=rng.choice(["none", "fake"]),
+        project = layouts.gen_project(rng, mode=rng.choice(["plain", "plain", "bytes"]), allow_mixed=True, vcs=rng.choice(["none", "fake"]),
                                       legacy=rng.random() < 0.25, allow_odd_paths=False, allow_glob=True, max_files=4)
         # 1..3 patterns per file (statement), keep the first three
         for f in project["files"]:
